@@ -5,19 +5,27 @@ From V Require Import Base.Util Gql.Ast C03.Model C03.Spec C03.Witness C03.Proof
 Check (C04_type_compat_complete : forall vt lt, types_compatible vt lt = true -> type_compat vt lt = true).
 Check (C04_check_value_complete : forall S vars,
   schema_wf S = true -> input_types_closed S = true ->
-  forall v t ld,
+  forall v t,
     resolves S t = true -> lit_ok S v t = true ->
-    Forall (use_strict vars) (var_uses false S v (Some t) ld) ->
+    Forall (use_ok vars) (var_uses false S v (Some t) false) ->
     check_value S vars v t = []).
+Check (C04_value_at_location_complete : forall S vars,
+  schema_wf S = true -> input_types_closed S = true ->
+  forall d v,
+    ty_wf (iv_type d) = true -> resolves S (iv_type d) = true ->
+    lit_ok S v (iv_type d) = true ->
+    Forall (use_ok vars) (var_uses false S v (Some (iv_type d)) (has_default d)) ->
+    check_value S vars v (loc_type d v) = []).
 Check (C04_check_arguments_complete : forall S vars,
   schema_wf S = true -> input_types_closed S = true ->
   forall ppos pname kind args defs,
+    NoDup (def_names defs) -> (forall d, In d defs -> ty_wf (iv_type d) = true) ->
     (forall d, In d defs -> resolves S (iv_type d) = true) ->
     (forall a, args = Some a -> args_list a <> []) ->
     args_defined_ok (provided args, defs) = true ->
     required_args_ok (provided args, defs) = true ->
     literal_types_vis S (provided args, defs) = true ->
-    Forall (use_strict vars) (args_var_uses false S (provided args) defs) ->
+    Forall (use_ok vars) (args_var_uses false S (provided args) defs) ->
     check_arguments S vars ppos pname kind args defs = []).
 Check (C04_check_directives_complete : forall S vars,
   schema_wf S = true -> input_types_closed S = true ->
@@ -25,43 +33,45 @@ Check (C04_check_directives_complete : forall S vars,
     (forall d, In d ds -> directive_fine S vars loc d) ->
     nodup_str (nonrep S ds) = true ->
     check_directives S vars loc ds = []).
-Check (C04_guard_satisfiable : schema_wf w_schema_0 = true /\ input_types_closed w_schema_0 = true).
 Check (C04_complete_vis : forall S D,
   schema_wf S = true -> schema_closed S = true -> doc_fine_vis S D = true ->
   (forall o, In o (doc_ops D) -> op_type o = Subscription ->
-     count_fields (doc_fuel D) (doc_frags D) [] (op_sel o) <= 1) ->
+     length (collect_response_keys (doc_fuel D) (doc_frags D) [] (op_sel o) []) <= 1) ->
+  forallb (fun f => mem_str (iname (fr_name f)) (spread_by_operations (doc_fuel D) (doc_frags D) (od_defs D))) (doc_frags D) = true ->
   check_operation_document S D = []).
-Check (C04_complete_vis_guard_satisfiable :
-  schema_wf w_schema_0 = true /\ schema_closed w_schema_0 = true /\ doc_fine_vis w_schema_0 w_doc_14 = true).
 Check (C04_full_to_vis : forall S D,
-  schema_wf S = true -> (forall r, rule_ok S D r = true) -> forall r, rule_ok_vis S D r = true).
+  (forall r, rule_ok S D r = true) -> forall r, rule_ok_vis S D r = true).
 Check (C04_complete : forall S D,
   schema_wf S = true -> schema_closed S = true ->
   spec_valid S D = true -> doc_guard S D = true ->
   (forall o, In o (doc_ops D) -> op_type o = Subscription ->
-     count_fields (doc_fuel D) (doc_frags D) [] (op_sel o) <= 1) ->
+     length (collect_response_keys (doc_fuel D) (doc_frags D) [] (op_sel o) []) <= 1) ->
+  forallb (fun f => mem_str (iname (fr_name f)) (spread_by_operations (doc_fuel D) (doc_frags D) (od_defs D))) (doc_frags D) = true ->
   check_operation_document S D = []).
 Check (C04_complete_guard_satisfiable :
   schema_wf w_schema_0 = true /\ schema_closed w_schema_0 = true
-  /\ spec_valid w_schema_0 w_doc_14 = true /\ doc_guard w_schema_0 w_doc_14 = true).
-Check (C04_variable_default_position_refuted :
-  exists S D, spec_valid S D = true /\ check_operation_document S D <> []).
-Check (C04_subscription_same_field_refuted :
-  exists S D, spec_valid S D = true /\ rule_ok S D R_single_subscription_root = true
-              /\ check_operation_document S D <> []).
+  /\ spec_valid w_schema_0 w_doc_14 = true /\ doc_guard w_schema_0 w_doc_14 = true /\ doc_fine_vis w_schema_0 w_doc_14 = true
+  /\ forallb (fun f => mem_str (iname (fr_name f))
+                         (spread_by_operations (doc_fuel w_doc_14) (doc_frags w_doc_14) (od_defs w_doc_14))) (doc_frags w_doc_14) = true).
+Check (C04_variable_default_position_now_accepted :
+  spec_valid w_schema_0 w_doc_15 = true /\ check_operation_document w_schema_0 w_doc_15 = []).
+Check (C04_subscription_same_field_now_accepted :
+  spec_valid w_schema_0 w_doc_16 = true /\ check_operation_document w_schema_0 w_doc_16 = []
+  /\ spec_valid w_schema_0 w_doc_23 = true /\ check_operation_document w_schema_0 w_doc_23 = []
+  /\ rule_ok w_schema_0 w_doc_24 R_single_subscription_root = false
+  /\ (exists p i, check_operation_document w_schema_0 w_doc_24 = [mkErr SubscriptionMustHaveExactlyOneRootField p i])).
 Check (C04_valid_documents_accepted :
   forallb (fun D => spec_valid w_schema_0 D && match check_operation_document w_schema_0 D with [] => true | _ => false end)
-          [w_doc_6; w_doc_7; w_doc_14] = true).
+          [w_doc_6; w_doc_7; w_doc_14; w_doc_15; w_doc_16; w_doc_23] = true).
 Print Assumptions C04_type_compat_complete.
 Print Assumptions C04_check_value_complete.
+Print Assumptions C04_value_at_location_complete.
 Print Assumptions C04_check_arguments_complete.
 Print Assumptions C04_check_directives_complete.
-Print Assumptions C04_guard_satisfiable.
 Print Assumptions C04_complete_vis.
-Print Assumptions C04_complete_vis_guard_satisfiable.
 Print Assumptions C04_full_to_vis.
 Print Assumptions C04_complete.
 Print Assumptions C04_complete_guard_satisfiable.
-Print Assumptions C04_variable_default_position_refuted.
-Print Assumptions C04_subscription_same_field_refuted.
+Print Assumptions C04_variable_default_position_now_accepted.
+Print Assumptions C04_subscription_same_field_now_accepted.
 Print Assumptions C04_valid_documents_accepted.
